@@ -190,6 +190,9 @@ Fixpoint paths (n : node) (v : val) {struct n} : list tagged :=
              end) 0%nat es ++
           [(["-1"], "index-1"); ([nat_to_string len], "indexlen"); ([nat_to_string (S len)], "indexlen1");
            ([huge_index], "indexhuge"); (["x!"], "unparsable"); (["-1"; "q"], "index-1"); ([nat_to_string len; "q"], "indexlen");
+           (* parsable 64-bit indices whose low 32 bits are small: a guard that compares in 32 bits lets them through *)
+           (["4294967296"], "index2p32"); (["4611686018427387904"], "index2p62"); (["-4294967295"], "indexneg2p32");
+           (["-9223372036854775808"], "indexmin64");
            (["9223372036854775808"], "index2p63"); (["18446744073709551615"], "index2p64m1"); (["0xffffffffffffffff"], "index2p64m1");
            ([""], "emptyseg"); (["08"], "unparsable"); (["00"], "octal"); (["0o1"], "octal"); (["+0"], "signed"); (["0_0"], "underscore")] ++
           (match es with [] => [] | e :: _ => pre "0x0" (take 2 (paths en e)) end)
